@@ -122,7 +122,7 @@ def read_whitelist(path):
     rows = [ln.split() for ln in raw.split('\n') if ln.strip()]
     if not rows:
         return None
-    isbc = lambda t: all(c in 'ACGTN' for c in t)
+    isbc = lambda t: all(c in 'ACGTNX+' for c in t)     # '+' joins the halves of a dual index, XXXXXX is a placeholder row
     if all(len(r) == 1 for r in rows):
         ent = [(r[0], str(i + 1)) for i, r in enumerate(rows)]
     elif all(len(r) == 2 for r in rows):
